@@ -734,6 +734,16 @@ func (fc *funcContext) translateAssign(lhs, rhs ast.Expr, define bool) string {
 	if named, ok := lhsType.(*types.Named); ok && named.Obj().Pkg() != nil && named.Obj().Pkg().Path() == "reflect" && named.Obj().Name() == "Value" {
 		isReflectValue = true
 	}
+	// A js-tagged field lives in the wrapped JavaScript object: assigning to it writes
+	// the externalised value to the property, whatever the Go type (no copy into the
+	// temporary that reading the field yields).
+	if l, ok := lhs.(*ast.SelectorExpr); ok {
+		if sel, ok := fc.selectionOf(l); ok && sel.Kind() == types.FieldVal {
+			if fields, jsTag := fc.translateSelection(sel, l.Pos()); jsTag != "" {
+				return fmt.Sprintf("%s.%s%s = %s;", fc.translateExpr(l.X), strings.Join(fields, "."), formatJSStructTagVal(jsTag), fc.externalize(rhsExpr.String(), sel.Type()))
+			}
+		}
+	}
 	if !isReflectValue { // this is a performance hack, but it is safe since reflect.Value has no exported fields and the reflect package does not violate this assumption
 		switch lhsType.Underlying().(type) {
 		case *types.Array, *types.Struct:
